@@ -53,6 +53,8 @@ structure St where
   nodes : List (String × NodeRec) := []        -- (forest, node), most recent dump only
   roots : List (String × List (Child Val)) := []
   scalars : List (String × String) := []
+  /-- where each edge points: (edge, forest, child) from the last `root` record -/
+  edgeRoots : List (String × String × Child Val) := []
   deriving Inhabited
 
 def St.diff (s : St) (ln : Nat) (kind detail : String) : St :=
